@@ -3,6 +3,21 @@
 import json
 
 CLAIMED = {
+    "C12": {
+        "text": "Proof about the decoders (a character-for-character port of parse.rs and visit_Bytes): string_roundtrip_partial - in the one-line quoting styles every string, under every per-character choice among verbatim, the single-character escapes, \\xHH, \\XHH, \\OOO, \\uHHHH, \\UHHHHHHHH, decodes to exactly itself; bytes_roundtrip - the same for byte sequences in all four quoting styles, raw_bytes_verbatim for raw bytes literals; each escape form denotes the code point / byte written (escape_*_denotation); escapes naming surrogates or values beyond U+10FFFF are rejected; \\u/\\U are not bytes escapes; raw strings perform no escape processing except for the exactly characterised defect. Genuine defects of the quote-toggling decoder are not repaired (two are pinned by the repository's own unit tests) but recorded as known findings D5a/b/c, each with a kernel-checked *_counterexample theorem and a narrow matcher; D25 (raw triple-quoted literals reject U+0000/U+10FFFF) is a quirk of the third-party ANTLR runtime. Tie to the code: every \\x, \\X, \\OOO, single-character escape and a stratified \\u/\\U sample in every style, random strings/bytes in every applicable style with random spellings, malformed spellings - compiled and executed on both sides (the model uses its own lexer and parser) and compared with the text that was spelled.",
+        "technique": "Lean 4 theorems about fuel-indexed decoder state machines (step lemma per spelling, induction over the spelled characters, kernel-decided counterexamples) + differential correspondence through the model's own lexer/parser + known-findings protocol",
+        "design_ref": "DESIGN.md section 5, C12",
+    },
+    "C13": {
+        "text": "Proof: decimal and hexadecimal int/uint literals within range decode to exactly the number written, signed ones down to the most negative int, and out-of-range literals are rejected (int_literal_*, hex_int_literal_exact, uint_literal_*); int()/uint() of a double return the truncation toward zero when it lies in the target range and an error otherwise incl. NaN and infinities - never a saturated value (int_of_double_spec, uint_of_double_spec, trunc_toward_zero); int<->uint conversions return the same number or an error; int -> double is exact up to 2^53; int(string(i)) = i, uint(string(u)) = u and string(bytes(s)) = s via a proved UTF-8 encode/decode round trip. Not proved, validated by correspondence only: that the model's shortest-round-trip printing and correctly rounded parsing of doubles are mutually inverse, and nearest-even rounding of int -> double beyond 2^53 (partial). Tie to the code: boundary sets and random 64-bit patterns in every literal form and through every conversion, as literals and as context variables, compiled and executed on both sides with the model's own lexer/parser, against i128 / IEEE expectations computed in the harness.",
+        "technique": "Lean 4 theorems over Nat.toDigits folds, decoded doubles and a UTF-8 state machine + differential correspondence (model lexer/parser/F64 printing vs Rust std)",
+        "design_ref": "DESIGN.md section 5, C13",
+    },
+    "C15": {
+        "text": "Proof: parse_format_roundtrip - for every duration representable in signed 64-bit nanoseconds, duration(string(d)) == d (full statement, incl. i64::MIN); parse_accepts_only_full_term_sequences - whatever duration() accepts is, in its entirety, an optional sign followed by 0 or one or more decimal-number-plus-unit terms (an inductive grammar), so trailing text, a missing unit, inner signs, exponents, inf/nan, spaces are rejected; accepted values fit i64 nanoseconds; the value of a term is exact (fraction truncated toward zero); printing is Go's canonical form (0s, sign prefix, ns/us/ms below one second, trimmed fractions); + - are exact or an overflow error, comparison is comparison of nanosecond counts, no operator panics. The Rust parser and printer were repaired (fix: commits D16, D23) to have exactly this behaviour. Tie to the code: boundary and log-uniform durations as host values and as text, multi-term and fractional texts, a malformed-text catalogue, arithmetic/comparison on pairs incl. overflow, against the model and an independent Go-format / exact-rational reference in the harness.",
+        "technique": "Lean 4: digit-fold lemmas over Nat.toDigits, inductive grammar soundness of the term parser, case analysis over the seven output shapes of the printer + differential correspondence with an independent reference",
+        "design_ref": "DESIGN.md section 5, C15",
+    },
     "C09": {
         "text": "Proof: Value.eq / Value.partialCmp mirror the Rust impls clause for clause; the Lean theorems show that among int, uint and double they coincide with the exact comparison of the numbers denoted (numKey: the value scaled by 2^1074 in Z plus +-inf; cmpIntD_matches_key is the numeric core for the truncate-then-fraction helper), NaN is unordered and unequal to everything, != negates ==, wherever < is defined exactly one of <,==,> holds and <=/>= are their disjunctions, a<b iff b>a, the order and equality are transitive across numeric kinds, strings compare by code point lexicographically, lists/maps are equal exactly element-/entry-wise, values of unrelated types are unequal and unordered, and max/min of mutually comparable values return a member bounding all others. Tie to the code: all ordered pairs of a ~100-value boundary set through Value::eq/partial_cmp directly, random pairs around 2^53/2^63/2^64, programs using the six relations, in, min, max; predicates on the implementation's own answers (symmetry, swap, trichotomy, exactness against an independent exact comparison, transitivity over all triples).",
         "technique": "Lean 4: exact rational embedding of doubles (integer arithmetic on decoded bit patterns), linear-order transfer through an order key + exhaustive boundary-pair/triple differential correspondence",
